@@ -606,3 +606,31 @@ def parents(node):
 
 def loc(module, node):
     return '%s:%d' % (module.relpath, getattr(node, 'lineno', 0))
+
+
+def element_sites(funcnode, include_nested=False):
+    """One view of the two spellings that build a collection element by element:
+    ``for T in IT: [if C:] X.append(E)`` (also ``add`` / ``X[K] = V``) and a
+    comprehension ``[E for T in IT if C]``.  -> [{'iter', 'target', 'ifs', 'elt',
+    'node'}]; ``node`` is the expression whose path condition (PathInfo.at)
+    holds exactly when the element is produced."""
+    out = []
+    for n in own_nodes(funcnode, include_nested=include_nested):
+        if isinstance(n, (ast.ListComp, ast.SetComp, ast.GeneratorExp, ast.DictComp)):
+            g = n.generators[0]
+            elt = n.value if isinstance(n, ast.DictComp) else n.elt
+            out.append({'iter': g.iter, 'target': g.target,
+                        'ifs': [c for gg in n.generators for c in gg.ifs], 'elt': elt,
+                        'node': elt, 'owner': n})
+        elif isinstance(n, ast.For):
+            b = n.body
+            ifs = []
+            while len(b) == 1 and isinstance(b[0], ast.If) and not b[0].orelse:
+                ifs.append(b[0].test)
+                b = b[0].body
+            if len(b) == 1 and isinstance(b[0], ast.Expr) and isinstance(b[0].value, ast.Call) \
+                    and isinstance(b[0].value.func, ast.Attribute) and \
+                    b[0].value.func.attr in ('append', 'add') and len(b[0].value.args) == 1:
+                out.append({'iter': n.iter, 'target': n.target, 'ifs': ifs,
+                            'elt': b[0].value.args[0], 'node': b[0].value, 'owner': n})
+    return out
